@@ -73,6 +73,27 @@ func Generate(r *rng.R, tier string, n int, emit func(*common.Case)) {
 				names = append(names, p[len(in.Cfg.Layers)+1:])
 			}
 		}
+		// a parent whose name is the beginning of a sibling's ("dev", "dev-x"): aim at it
+		for _, n := range names {
+			if i := strings.LastIndexByte(n, '-'); i > 0 && cr.Chance(2, 3) {
+				p := n[:i]
+				for _, m := range names {
+					if m == p {
+						switch cr.Intn(3) {
+						case 0:
+							in.Steps = append(in.Steps, lcw.StepIn{Cmd: lcw.Cmd{Kind: "remove", A: p, Flag: cr.Bool()}})
+						case 1:
+							in.Steps = append(in.Steps, lcw.StepIn{Cmd: lcw.Cmd{Kind: "rename", A: p, B: "renamedp"}})
+							names = append(names, "renamedp")
+						default:
+							in.Steps = append(in.Steps, lcw.StepIn{Cmd: lcw.Cmd{Kind: "rebase", A: p, B: names[cr.Intn(len(names))]}})
+						}
+						break
+					}
+				}
+				break
+			}
+		}
 		for k := 1 + cr.Heavy(7); k > 0; k-- {
 			c := genCmd(cr, names)
 			if c.Kind == "add" || c.Kind == "rename" {
